@@ -318,7 +318,13 @@ impl Real {
                 // the format macros on a context: views and closures created now, rendered after later locale changes
                 let v_fnum = leptos_i18n::t_format!(ctx, move || 1234567.5f64, formatter: number);
                 let v_flist = leptos_i18n::tu_format!(ctx, move || ["A", "B", "C"], formatter: list(list_type: and));
+                // plural selectors made now, called after later locale changes (0: `one` in fr / pt-BR, `other` elsewhere;
+                // ordinal 2: `two` in en / en-US only)
+                let v_plural = leptos_i18n::t_plural!(ctx, count = || 0, one => "one", _ => "other");
+                let v_plural_ord = leptos_i18n::t_plural_ordinal!(ctx, count = || 2, two => "two", one => "one", _ => "other");
                 let readers: Vec<(&'static str, Reader)> = vec![
+                    ("closure t_plural!(0)", Box::new(move || v_plural().to_string())),
+                    ("closure t_plural_ordinal!(2)", Box::new(move || v_plural_ord().to_string())),
                     ("t!(hello)", Box::new(move || strip(v_hello().to_html()))),
                     ("t!(greet)", Box::new(move || strip(v_greet().to_html()))),
                     ("t!(scoped leaf)", Box::new(move || strip(v_leaf().to_html()))),
@@ -593,7 +599,7 @@ pub fn run(tier: Tier) -> i32 {
     rep.sample(json!({"history": format!("{probe:?}"), "snapshots": a}));
     let n_states = states.lock().unwrap().len();
     let mut cov = serde_json::Map::new();
-    cov.insert("rule".into(), json!(format!("every operation history of length <= {depth} over a tree of <= {max_ctx} contexts: set_locale / set_locale_untracked (fr, de) on any context, set through a doubly scoped view (to pt-PT), sub-context creation under any context with no / constant / caller-wired initial locale - directly (init_i18n_subcontext_with_options in a child owner) through the generated <I18nSubContextProvider> component placed in the parent's owner, with provide_i18n_subcontext in a child owner, or inside a tracking scope (a Memo in a child owner that is read again after every step, as a reactive view closure is: a re-run replaces the sub-context by the one it builds) -, set_locale (to pt-BR: with pt-PT two locales of one language whose plural rules differ on 0) through a handle looked up with use_i18n() in a context's owner after everything created next to it, writes to a wired signal (changing and not changing its value), creation of accessor sets (t! closures with and without arguments and scoping, t_string!, tu_string!, t_display!, the format macros; a Memo + Effect pair, and one Memo per tracked accessor - t_string!, t_display!, t!, the scoped forms, t_format_string!, t_format_display!, t_format!, t_plural!, t_plural_ordinal!, get_locale - holding that accessor alone) and `poll` (run effects to quiescence - also absent, so both 'effects have run' and 'not yet' are explored); each history is replayed from scratch on a fresh Owner (stateless search) and after EVERY step every context, a fresh scoped view of it and every accessor made earlier is read; oracle: a map context -> last locale set (own sets and its wired signal only); states = distinct (context locales) snapshots reached")));
+    cov.insert("rule".into(), json!(format!("every operation history of length <= {depth} over a tree of <= {max_ctx} contexts: set_locale / set_locale_untracked (fr, de) on any context, set through a doubly scoped view (to pt-PT), sub-context creation under any context with no / constant / caller-wired initial locale - directly (init_i18n_subcontext_with_options in a child owner) through the generated <I18nSubContextProvider> component placed in the parent's owner, with provide_i18n_subcontext in a child owner, or inside a tracking scope (a Memo in a child owner that is read again after every step, as a reactive view closure is: a re-run replaces the sub-context by the one it builds) -, set_locale (to pt-BR: with pt-PT two locales of one language whose plural rules differ on 0) through a handle looked up with use_i18n() in a context's owner after everything created next to it, writes to a wired signal (changing and not changing its value), creation of accessor sets (t! closures with and without arguments and scoping, t_plural! / t_plural_ordinal! closures, t_string!, tu_string!, t_display!, the format macros; a Memo + Effect pair, and one Memo per tracked accessor - t_string!, t_display!, t!, the scoped forms, t_format_string!, t_format_display!, t_format!, t_plural!, t_plural_ordinal!, get_locale - holding that accessor alone) and `poll` (run effects to quiescence - also absent, so both 'effects have run' and 'not yet' are explored); each history is replayed from scratch on a fresh Owner (stateless search) and after EVERY step every context, a fresh scoped view of it and every accessor made earlier is read; oracle: a map context -> last locale set (own sets and its wired signal only); states = distinct (context locales) snapshots reached")));
     cov.insert("exhaustive".into(), json!(true));
     cov.insert("states".into(), json!(n_states.max(1)));
     cov.insert("depth".into(), json!(depth));
